@@ -182,8 +182,11 @@ def main():
         cmd = "esolver " + " ".join(r["args"])
         rid = "%d_%d" % (k, r["j"])
         ck.count((fn, tuple(r["args"])))
+        p4 = "-p 4" in " ".join(r["args"])
         if rc_ == "timeout" or (isinstance(rc_, int) and rc_ < 0):
-            ck.violation("signal_%s.txt" % rid, cmd + "\n" + er, "%s ended with %s on a readable file" % (cmd, "a timeout" if rc_ == "timeout" else "signal %d" % -rc_), match=dict(kind="esolver-crash"))
+            ck.violation("signal_%s.txt" % rid, "# file %s:\n%s\n# command: %s\n%s\n" % (fn, read_sol(os.path.join(d, fn)), cmd, er),
+                         "%s ended with %s on a readable file" % (cmd, "a timeout (120 s)" if rc_ == "timeout" else "signal %d" % -rc_),
+                         match=dict(kind="solver-pmultpartial" if p4 else "esolver-crash"))
             continue
         text = read_sol(os.path.join(d, r["sol"]))
         t = truth.get(k)
@@ -192,7 +195,7 @@ def main():
         replay = "# file %s:\n%s\n# command: %s\n# exit %s\n# solution file:\n%s\n" % (fn, read_sol(os.path.join(d, fn)) if True else "", cmd, rc_, text)
         if t is not None and first != "status = " + TRUTH_NAME[t[0]]:
             ck.violation("status_%s.txt" % rid, replay, "%s: solution file says %r, the LP is %s%s" % (cmd, first, TRUTH_NAME[t[0]], "" if t[1] is None else " with value %s" % t[1]),
-                         match=dict(kind="status"))
+                         match=dict(kind="solver-pmultpartial" if p4 else "status"))
             continue
         if rc_ != 0:
             nonopt = t is not None and t[0] != "optimal"
